@@ -435,9 +435,9 @@ def _run_cases(b, fn, seeds):
 
 def bounded_tree_mirror(tier, seed):
     b = Bounded("C04.modules-mirror-directory-tree", "random directory trees (depth 2-4, 2-4 entries per directory from 8 names incl. string prefixes of siblings, packages with and without __init__.py, "
-                "non-python files), 2-8 absolute imports; 400 (quick) / 2500 trees; per tree 2 sub-directory scans compared with the restriction of the whole-root scan; both import spellings below a "
+                "non-python files), 2-8 absolute imports; 400 (quick) / 15000 trees; per tree 2 sub-directory scans compared with the restriction of the whole-root scan; both import spellings below a "
                 "sub-directory module_path; module-object entry point vs path entry point under 7 option sets")
-    n = 400 if tier == "quick" else 2500
+    n = 400 if tier == "quick" else 15000
     _run_cases(b, _c04_case, [seed * 100003 + i for i in range(n)])
     _run_cases(b, _c04_relative_spelling, [seed * 7 + i for i in range(4)])
     for res in pmap(_c04_sibling_scans, [(seed, i, rf) for i in range(6) for rf in (True, False)], fresh=True):
@@ -571,7 +571,7 @@ def _c08_entry_patterns(seed):
 
 def bounded_exclusions(tier, seed):
     b = Bounded("C08.exclusions-remove-exactly-matching-paths", "glob->regex conversion: ALL patterns over the alphabet {a . * +} up to length 4 (quick) / 5 (thorough) x all texts up to length 4 "
-                "(exhaustive); 200/1000 random project trees with names containing regex metacharacters and siblings sharing a prefix, per tree 3 patterns from the four glob shapes built from the "
+                "(exhaustive); 200/6000 random project trees with names containing regex metacharacters and siblings sharing a prefix, per tree 3 patterns from the four glob shapes built from the "
                 "tree's own paths, as glob and as the equivalent regex")
     alphabet = "a.*+"
     pats = [""] + ["".join(t) for n in range(1, 5 if tier == "quick" else 6) for t in itertools.product(alphabet, repeat=n)]
@@ -583,7 +583,7 @@ def bounded_exclusions(tier, seed):
         for v in bad:
             b.violation(v["case"], v["detail"], v["input"])
     b.samples.append(dict(pattern="*a.+", text="xa.+"))
-    _run_cases(b, _c08_case, [seed * 100003 + i for i in range(200 if tier == "quick" else 1000)])
+    _run_cases(b, _c08_case, [seed * 100003 + i for i in range(200 if tier == "quick" else 6000)])
     _run_cases(b, _c08_entry_patterns, [seed])
     return b.result()
 
@@ -664,9 +664,9 @@ def _c09_case(seed):
 
 
 def bounded_level_limit(tier, seed):
-    b = Bounded("C09.level-limit-is-the-quotient-graph", "150 (quick) / 800 random project trees of depth <=4 plus a fixed 3-level package with src-layout absolute imports; module_path = root, one and two levels "
+    b = Bounded("C09.level-limit-is-the-quotient-graph", "150 (quick) / 5000 random project trees of depth <=4 plus a fixed 3-level package with src-layout absolute imports; module_path = root, one and two levels "
                 "below; every k from 1 to the depth; flattened architecture compared with the truncation of the full one, and 6 random two-module rules x 12 shapes for verdict preservation")
-    _run_cases(b, _c09_case, [seed * 100003 + i for i in range(150 if tier == "quick" else 800)])
+    _run_cases(b, _c09_case, [seed * 100003 + i for i in range(150 if tier == "quick" else 5000)])
     b.samples.append(dict(module_path="core/api", level_limit=1))
     return b.result()
 
@@ -742,10 +742,10 @@ def _c10_case(seed):
 
 
 def bounded_externals(tier, seed):
-    b = Bounded("C10.external-options-touch-only-externals", "200 (quick) / 1000 random project trees with 6-14 imports, 40% of them to 11 external names (nested packages, names sharing prefixes/suffixes with "
+    b = Bounded("C10.external-options-touch-only-externals", "200 (quick) / 8000 random project trees with 6-14 imports, 40% of them to 11 external names (nested packages, names sharing prefixes/suffixes with "
                 "internal modules); module_path = root and one level below; externals excluded, included, and included with 4 glob patterns (and the equivalent regexes) out of 11, some of which "
                 "textually match internal module names")
-    _run_cases(b, _c10_case, [seed * 100003 + i for i in range(200 if tier == "quick" else 1000)])
+    _run_cases(b, _c10_case, [seed * 100003 + i for i in range(200 if tier == "quick" else 8000)])
     b.samples.append(dict(external_exclusions=["*handlers"], internal_module="proj.core.handlers"))
     return b.result()
 
